@@ -250,7 +250,8 @@ type World struct {
 	alias      map[string]string
 	preferred  *vrt.Thread
 	batching   bool
-	bursted    bool
+	bursted    map[string]bool // sources that have relayed their burst
+	fetchFail  int // the next n GetOutputs calls of the application's output fetcher fail
 	enabledAtKey []string
 	offBestAt  map[string]int64 // block name -> when the peer's best chain dropped it (first time)
 	drainTimeouts bool // the last drain only converged (if at all) after letting request time-outs fire
@@ -289,6 +290,10 @@ func (f *fetcher) GetTx(ctx context.Context, txid bitcoin.Hash32) (*wire.MsgTx, 
 
 // GetOutputs answers from the tx universe; unknown outpoints get a recognisable stub value.
 func (f *fetcher) GetOutputs(ctx context.Context, ops []wire.OutPoint) ([]bitcoin.UTXO, error) {
+	if f.w.fetchFail > 0 {
+		f.w.fetchFail--
+		return nil, fmt.Errorf("output fetcher: backend unavailable")
+	}
 	out := make([]bitcoin.UTXO, len(ops))
 	for i, op := range ops {
 		out[i] = f.w.utxo(op)
